@@ -244,14 +244,20 @@ theorem endOk_of_startsNL {r : List Token} (h : startsNL r = true) : endOk r = t
   | cons t r => cases t <;> simp_all [startsNL, endOk]
 
 /-- one printed row -/
-theorem parseRow (F : NumFmt) (pe : Parser PExpr) (row : List PExpr) (hne : row ≠ [])
+theorem parseRow (F : NumFmt) (nf : PExpr → PExpr) (pe : Parser PExpr) (row : List PExpr)
+    (hnl : ∀ r', pe (.newLine :: r') = .err)
     (hn : ∀ e ∈ row, numTokOk F e = true)
-    (hpe : ∀ e ∈ row, ∀ r, endOk r = true → pe (printTop F e ++ r) = .ok e r)
+    (hpe : ∀ e ∈ row, ∀ r, endOk r = true → pe (printTop F e ++ r) = .ok (nf e) r)
     (r : List Token) (hr : startsNL r = true) :
     separatedList0 (pair (tok .comma) (many0 (tok .indentation))) pe
-      (sepBy [.comma] (row.map (printTop F)) ++ r) = .ok row r := by
+      (sepBy [.comma] (row.map (printTop F)) ++ r) = .ok (row.map nf) r := by
   cases hrow : row with
-  | nil => exact absurd hrow hne
+  | nil =>
+    cases r with
+    | nil => simp [startsNL] at hr
+    | cons t r' =>
+      cases t <;> simp [startsNL] at hr
+      simp [sepBy, separatedList0, hnl]
   | cons e es =>
     subst hrow
     have hstop : pair (tok .comma) (many0 (tok .indentation)) r = .err ∨ ∃ v r1,
@@ -261,7 +267,7 @@ theorem parseRow (F : NumFmt) (pe : Parser PExpr) (row : List PExpr) (hne : row 
       | nil => simp [startsNL] at hr
       | cons t r' => cases t <;> simp_all [startsNL, pair, Parser.bind, tok]
     have h := (separatedList1_gen (pair (tok .comma) (many0 (tok .indentation))) ((), []) [.comma] pe
-      (printTop F) id endOk e es r (by simp)
+      (printTop F) nf endOk e es r (by simp)
       (fun y hy r' => by
         have := many0_indent_stop _ (printTop_notIndent F y (hn y (by simp [hy])) r')
         simp [pair, Parser.bind, tok, this, Parser.pure])
@@ -269,22 +275,20 @@ theorem parseRow (F : NumFmt) (pe : Parser PExpr) (row : List PExpr) (hne : row 
     have hflat : (es.map (printTop F)).flatMap (fun y => [Token.comma] ++ y) =
         es.flatMap (fun x => [Token.comma] ++ printTop F x) := by
       simp [List.flatMap_map]
-    simp only [List.map_id] at h
-    simp only [List.map_cons, sepBy_cons, hflat, List.append_assoc]
+    simp only [List.map_cons, sepBy_cons, hflat, List.append_assoc] at h ⊢
     exact h
 
-theorem spec_matrix (F : NumFmt) (pe : Parser PExpr) (args : List String) (x : List PExpr)
-    (xs : List (List PExpr)) (hne : ∀ row ∈ x :: xs, row ≠ [])
+theorem spec_matrix (F : NumFmt) (nf : PExpr → PExpr) (pe : Parser PExpr) (args : List String) (x : List PExpr)
+    (xs : List (List PExpr)) (hnl : ∀ r', pe (.newLine :: r') = .err)
     (hn : ∀ row ∈ x :: xs, ∀ e ∈ row, numTokOk F e = true)
-    (hpe : ∀ row ∈ x :: xs, ∀ e ∈ row, ∀ r, endOk r = true → pe (printTop F e ++ r) = .ok e r)
+    (hpe : ∀ row ∈ x :: xs, ∀ e ∈ row, ∀ r, endOk r = true → pe (printTop F e ++ r) = .ok (nf e) r)
     (rest : List Token) (hrest : restOk rest = true) :
     specParser pe args .matrix
       ((x :: xs).flatMap (fun row => [Token.newLine] ++ (.indentation :: sepBy [.comma] (row.map (printTop F))))
-        ++ .newLine :: rest) = .ok (.matrix (x :: xs)) (.newLine :: rest) := by
+        ++ .newLine :: rest) = .ok (.matrix ((x :: xs).map (·.map nf))) (.newLine :: rest) := by
   have h := parseLines (separatedList0 (pair (tok .comma) (many0 (tok .indentation))) pe)
-    (fun row : List PExpr => sepBy [.comma] (row.map (printTop F))) id x xs rest hrest
-    (fun row hrow r hr => parseRow F pe row (hne row hrow) (hn row hrow) (hpe row hrow) r hr)
-  simp only [List.map_id] at h
+    (fun row : List PExpr => sepBy [.comma] (row.map (printTop F))) (·.map nf) x xs rest hrest
+    (fun row hrow r hr => parseRow F nf pe row hnl (hn row hrow) (hpe row hrow) r hr)
   simp only [specParser, pmap, parseMatrix]
   erw [h]
   rfl
@@ -306,10 +310,11 @@ def pauliLine (F : NumFmt) (t : PauliTerm) : List Token :=
   .identifier (t.arguments.map fun ga => pauliGateChar ga.1) :: .lParenthesis ::
     (printTop F t.expression ++ .rParenthesis :: (t.arguments.map fun ga => identTok ga.2))
 
-theorem parsePauliTerm_line (F : NumFmt) (pe : Parser PExpr) (t : PauliTerm) (hne : t.arguments ≠ [])
-    (hpe : ∀ r, endOk r = true → pe (printTop F t.expression ++ r) = .ok t.expression r)
+theorem parsePauliTerm_line (F : NumFmt) (nf : PExpr → PExpr) (pe : Parser PExpr) (t : PauliTerm)
+    (hne : t.arguments ≠ [])
+    (hpe : ∀ r, endOk r = true → pe (printTop F t.expression ++ r) = .ok (nf t.expression) r)
     (r : List Token) (hr : startsNL r = true) :
-    parsePauliTerm pe (pauliLine F t ++ r) = .ok t r := by
+    parsePauliTerm pe (pauliLine F t ++ r) = .ok ⟨t.arguments, nf t.expression⟩ r := by
   obtain ⟨targs, e⟩ := t
   simp only at hne hpe
   cases hargs : targs with
@@ -344,36 +349,39 @@ theorem parsePauliTerm_line (F : NumFmt) (pe : Parser PExpr) (t : PauliTerm) (hn
       simp [List.map_map, Function.comp_def]
     simp only [hstr, List.length_map, bne_self_eq_false, Bool.false_eq_true, if_false, hz]
 
-theorem spec_pauliSum (F : NumFmt) (pe : Parser PExpr) (args : List String) (x : PauliTerm)
+theorem spec_pauliSum (F : NumFmt) (nf : PExpr → PExpr) (pe : Parser PExpr) (args : List String) (x : PauliTerm)
     (xs : List PauliTerm) (hok : ∀ t ∈ x :: xs, t.arguments ≠ [] ∧ t.arguments.all (fun ga => args.contains ga.2) = true)
-    (hpe : ∀ t ∈ x :: xs, ∀ r, endOk r = true → pe (printTop F t.expression ++ r) = .ok t.expression r)
+    (hpe : ∀ t ∈ x :: xs, ∀ r, endOk r = true → pe (printTop F t.expression ++ r) = .ok (nf t.expression) r)
     (rest : List Token) (hrest : restOk rest = true) :
     specParser pe args .pauliSum
       ((x :: xs).flatMap (fun t => [Token.newLine] ++ (.indentation :: pauliLine F t)) ++ .newLine :: rest) =
-        .ok (.pauliSum ⟨args, x :: xs⟩) (.newLine :: rest) := by
-  have h := parseLines (parsePauliTerm pe) (pauliLine F) id x xs rest hrest
-    (fun t ht r hr => parsePauliTerm_line F pe t (hok t ht).1 (hpe t ht) r hr)
-  simp only [List.map_id] at h
-  have hall : ((x :: xs).all fun t => t.arguments.all fun ga => args.contains ga.2) = true :=
-    List.all_eq_true.mpr (fun t ht => (hok t ht).2)
+        .ok (.pauliSum ⟨args, (x :: xs).map fun t => ⟨t.arguments, nf t.expression⟩⟩) (.newLine :: rest) := by
+  have h := parseLines (parsePauliTerm pe) (pauliLine F) (fun t : PauliTerm => (⟨t.arguments, nf t.expression⟩ : PauliTerm))
+    x xs rest hrest
+    (fun t ht r hr => parsePauliTerm_line F nf pe t (hok t ht).1 (hpe t ht) r hr)
+  have hall : (((x :: xs).map fun t : PauliTerm => (⟨t.arguments, nf t.expression⟩ : PauliTerm)).all
+      fun t => t.arguments.all fun ga => args.contains ga.2) = true := by
+    rw [List.all_eq_true]
+    intro t' ht'
+    obtain ⟨t, ht, rfl⟩ := List.mem_map.mp ht'
+    exact (hok t ht).2
   simp only [specParser, mapRes, parsePauliTerms]
   erw [h]
   simp only [pauliSumNew, hall, if_true, Option.map_some]
 
 /-! ## SEQUENCE -/
 
-theorem parseSequenceElement_toks (F : NumFmt) (pe : Parser PExpr) (g : Gate)
+theorem parseSequenceElement_toks (F : NumFmt) (nf : PExpr → PExpr) (pe : Parser PExpr) (g : Gate)
     (hq : g.qubits.all noPlaceholder = true)
-    (hpe : ∀ e ∈ g.parameters, ∀ r, endOk r = true → pe (printTop F e ++ r) = .ok e r)
+    (hpe : ∀ e ∈ g.parameters, ∀ r, endOk r = true → pe (printTop F e ++ r) = .ok (nf e) r)
     (r : List Token) (hr : startsNL r = true) :
-    parseSequenceElement pe (gateToks F g ++ r) = .ok g r := by
+    parseSequenceElement pe (gateToks F g ++ r) = .ok { g with parameters := g.parameters.map nf } r := by
   obtain ⟨name, ps, qs, ms⟩ := g
   cases r with
   | nil => simp [startsNL] at hr
   | cons t r' =>
     cases t <;> simp [startsNL] at hr
-    have hp := parseParameters_toks F id pe ps _ hpe (lparen_qubits qs r')
-    simp only [List.map_id] at hp
+    have hp := parseParameters_toks F nf pe ps _ hpe (lparen_qubits qs r')
     simp only [gateToks, List.append_assoc, List.cons_append, parseSequenceElement, bind_eq, Parser.bind,
       many0_modifiers]
     simp only [identTok, tokIdentifier, str_toList, hp,
@@ -390,19 +398,26 @@ theorem tryNew_ok (args : List String) (hargs : args ≠ []) (gs : List Gate)
   intro g hg
   exact hvars g hg
 
-theorem spec_sequence (F : NumFmt) (pe : Parser PExpr) (args : List String) (hargs : args ≠ []) (x : Gate)
+theorem spec_sequence (F : NumFmt) (nf : PExpr → PExpr) (pe : Parser PExpr) (args : List String) (hargs : args ≠ [])
+    (x : Gate)
     (xs : List Gate) (hq : ∀ g ∈ x :: xs, g.qubits.all noPlaceholder = true)
     (hvars : ∀ g ∈ x :: xs, (g.qubits.all fun q => match q with | .variable a => args.contains a | _ => false) = true)
-    (hpe : ∀ g ∈ x :: xs, ∀ e ∈ g.parameters, ∀ r, endOk r = true → pe (printTop F e ++ r) = .ok e r)
+    (hpe : ∀ g ∈ x :: xs, ∀ e ∈ g.parameters, ∀ r, endOk r = true → pe (printTop F e ++ r) = .ok (nf e) r)
     (rest : List Token) (hrest : restOk rest = true) :
     specParser pe args .sequence
       ((x :: xs).flatMap (fun g => [Token.newLine] ++ (.indentation :: gateToks F g)) ++ .newLine :: rest) =
-        .ok (.sequence ⟨args, x :: xs⟩) (.newLine :: rest) := by
-  have h := parseLines (parseSequenceElement pe) (gateToks F) id x xs rest hrest
-    (fun g hg r hr => parseSequenceElement_toks F pe g (hq g hg) (hpe g hg) r hr)
-  simp only [List.map_id] at h
+        .ok (.sequence ⟨args, (x :: xs).map fun g => { g with parameters := g.parameters.map nf }⟩)
+          (.newLine :: rest) := by
+  have h := parseLines (parseSequenceElement pe) (gateToks F)
+    (fun g : Gate => ({ g with parameters := g.parameters.map nf } : Gate)) x xs rest hrest
+    (fun g hg r hr => parseSequenceElement_toks F nf pe g (hq g hg) (hpe g hg) r hr)
+  have hvars' : ∀ g' ∈ (x :: xs).map (fun g : Gate => ({ g with parameters := g.parameters.map nf } : Gate)),
+      (g'.qubits.all fun q => match q with | .variable a => args.contains a | _ => false) = true := by
+    intro g' hg'
+    obtain ⟨g, hg, rfl⟩ := List.mem_map.mp hg'
+    exact hvars g hg
   simp only [specParser, mapRes, parseSequenceElements]
   erw [h]
-  simp only [tryNew_ok args hargs (x :: xs) hvars, Option.map_some]
+  simp only [tryNew_ok args hargs _ hvars', Option.map_some]
 
 end QV.C02
